@@ -11,6 +11,7 @@
 //	          n  cannot be sought, end on a read of its own (a pipe)
 //	          e  cannot be sought, its LAST read carries io.EOF together with the data (gzip readers, http bodies,
 //	             iotest.DataErrReader)
+//	          s  can be sought AND its last read carries io.EOF together with the data
 //	  gate 1 = the data is handed out in short reads (cut at arbitrary places)
 //
 // The source reports (token <p>.src) the moment it has handed the whole object that does not decode over.
@@ -125,8 +126,8 @@ func jdProvider(pm *poolMocks, pl poolPlan, g jdPlan) core.Provider {
 	jc.Decode.Passes = g.passes
 	jc.Decode.Limit = g.limit
 	jc.Decode.Source = jdSource{mk: func() io.ReadCloser {
-		r := &jdReader{pm: pm, data: data, handed: handed, chunk: chunk, eofWith: g.style == "e"}
-		if g.style == "f" {
+		r := &jdReader{pm: pm, data: data, handed: handed, chunk: chunk, eofWith: g.style == "e" || g.style == "s"}
+		if g.style == "f" || g.style == "s" {
 			return jdSeekReader{r}
 		}
 		return r
